@@ -123,6 +123,9 @@ func (e *Engine) setup(fn *ssa.Function, con *Contract, choice []splitChoice) *f
 	vc.X = x
 	IntDefs = map[string]*Term{}
 	x.wrapSigned = con.Opts["wrap-signed"] != ""
+	x.unknownPure = con.Opts["unknown-calls-pure"] != ""
+	x.vc.NoSafety = con.Opts["no-safety"] != ""
+	x.vc.COI = con.Opts["cone-of-influence"] != ""
 	x.assumeCalleePre = con.Opts["assume-callee-pre"] != ""
 	x.opaque = map[string]bool{}
 	for _, n := range strings.Split(con.Opts["opaque"], ",") {
@@ -215,6 +218,8 @@ func (fr *Frame) specEnvEntry(heap map[string]*Term) *SpecEnv {
 	var pkg *types.Package
 	if fr.fn.Pkg != nil {
 		pkg = fr.fn.Pkg.Pkg
+	} else if fr.fn.Origin() != nil && fr.fn.Origin().Pkg != nil {
+		pkg = fr.fn.Origin().Pkg.Pkg
 	} else if fr.fn.Parent() != nil && fr.fn.Parent().Pkg != nil {
 		pkg = fr.fn.Parent().Pkg.Pkg
 	}
@@ -416,6 +421,19 @@ func (e *Engine) verifyCase(fn *ssa.Function, con *Contract, choice []splitChoic
 	}
 	// frame
 	x.frameOK = e.frameChecker(x, fr, con, pre)
+	if rf := con.Opts["region-from"]; rf != "" {
+		// region verification: start at the block holding the named call; everything computed before it
+		// is arbitrary (of its type) except for the stated region assumptions
+		fr.restrictToRegion(rf)
+		e.Note("region verification of " + fn.String() + ": only the code from the call to " + rf + " to the exits is verified; the entry preconditions are assumed to hold there for the entry heap, values computed earlier are arbitrary")
+		fr.onEntry = func(n *vnode) {
+			env := fr.specEnv(n, n.heap)
+			for _, r := range con.RegionAssumes {
+				vc.Assume(env.evalBool(r.E))
+				e.Note("unchecked region-start assumption of " + fn.String() + ": " + r.Text)
+			}
+		}
+	}
 	exits := fr.run(True, pre.heap)
 	if len(exits) == 0 {
 		return vc
